@@ -643,6 +643,8 @@ def _passed(outcome, F, g):
         st = cfg.nodes[b].stmt
         if st is not None and outcome.evaluated(F, st):
             return True
+        if st is not None and cfg.nodes[b].kind == "stmt" and outcome.completed(F, st):
+            return True        # guard = handler of a try: the protected statement ran without raising (dict lookup hit)
     return False
 
 
